@@ -100,6 +100,8 @@ def tpl_reject(size, m, pfx, locked, closed, notcoro, c, dup, _twin=False):
                 causes.append(TaskGroupAlreadyExists)
             before = _snap(w, pool, gen_rec)
             err = None
+            w.op("request:" + METHODS[m if isinstance(m, int) else [j for j in range(5) if m == j][0]], "locked" if locked else "-",
+                 "closed" if closed else "-", "notcoro" if notcoro else "-", c, "dup" if dup else "-")
             try:
                 request()
                 accepted = True
@@ -168,6 +170,7 @@ def tpl_size(size, v, k, ctor, _twin=False):
         w.settle()
         gen_rec = {"pulled": 0}
         before = _snap(w, pool, gen_rec) + (pool._enough_room._value,)
+        w.op("set_pool_size", v, "negative" if v < 0 else "ok")
         try:
             pool.pool_size = v
             if v < 0:
